@@ -837,10 +837,20 @@ def check_C06(tier):
     ties = cert_ties(results, ["gramWF", "certA", "certT", "certCanon", "prodOK"])
     violations, samples = [], []
     runs = rejected = 0
+    term_total = term_ok = 0
     for r in results:
         if r.refused is not None:
             continue
         conflict_free = r.V.get("isLALR1", ["?"])[0] == "yes"
+        if conflict_free:
+            # hypothesis of C06_terminates / C06_nonsentence_rejected on the implementation's table: with it the driver
+            # reaches a verdict on EVERY input; without it the theorem says nothing and an input that loops is searched below
+            term_total += 1
+            if r.V.get("certTerm", ["?"])[0] == "ok":
+                term_ok += 1
+            elif not any(f[2] == "fuel" for f in r.runs):
+                ties.append({"what": "hypothesis certTerm of C06_terminates does not hold on the implementation's table of a conflict-free grammar (no looping input found among the explored ones)",
+                             "case": r.id, "src": r.case["src"][:1500]})
         for f in r.runs:
             w = r.inputs[int(f[1])]
             runs += 1
@@ -875,6 +885,13 @@ def check_C06(tier):
         if core.g is None:
             continue
         conflict_free = core.V.get("isLALR1", ["?"])[0] == "yes"
+        if conflict_free:
+            term_total += 1
+            if core.V.get("certTerm", ["?"])[0] == "ok":
+                term_ok += 1
+            elif not any((xrun.impl_run(res, c, vn, w) or {}).get("verdict") == "loop" for w in c["inputs"] for vn in vnames):
+                ties.append({"what": "hypothesis certTerm of C06_terminates does not hold on the implementation's table of a conflict-free grammar (no looping input found among the explored ones)",
+                             "case": c["id"]})
         name2id = {v["name"]: k for k, v in core.g.syms.items()}
         ids = [name2id.get(t if not t.startswith("'") else "$operator" + t[1], 0) for t in c["xs"]["terms"]]
         for w in c["inputs"]:
@@ -903,14 +920,17 @@ def check_C06(tier):
                                                 {"input": w, "tokens_requested": r["req"], "first_bad_token_index": p}))
     cov = std_cov(results, runs + xruns, GEN_RULE + "; inputs: all strings up to a bound incl. an unknown token, mutated sentences; viable prefixes decided by an Earley recogniser; plus the compiled parsers of all five variants (outcome class: accept / grammar error / other exception / nil / step limit)",
                   samples, {"rejected_runs": rejected, "compiled_rejected_runs": xrej, "compiled_variants": vnames, "ts_skipped": res["skipped_ts"],
-                            "partial": ["termination for every conflict-free grammar (needs unambiguity of LR grammars) is covered by step-bounded execution, not by a theorem",
+                            "conflict_free_tables": term_total, "of_which_pass_the_termination_certificate": term_ok,
+                            "partial": ["termination is a theorem per table (C06_terminates: the decidable certificate certTerm, evaluated on the implementation's table of every conflict-free grammar explored, implies a verdict on every input within an explicit number of steps); that EVERY conflict-free LALR(1) table passes the certificate (needs unambiguity of LR grammars) is not proved",
                                         "the error channel of each backend (Go panic text, TypeScript log + null) is a fact about emitted text and is checked by execution"]})
     return common.conclude(pid, tier, "proof", proof, ties, violations, cov, [])
 
 
 C06_THEOREMS = ["Y.Props.C06_safe", "Y.Props.C06_prefix", "Y.Props.C06_first_bad_token", "Y.Props.C06_error_prefix",
-                "Y.Props.C06_generator", "Y.Props.C06_pipeline"]
-C06_MODULES = ["Yv.Props.C06", "Yv.Props.C06b", "Yv.Props.C01gen"]
+                "Y.Props.C06_generator", "Y.Props.C06_pipeline",
+                "Y.Props.C06_terminates", "Y.Props.C06_terminates_bound", "Y.Props.C06_terminates_mono", "Y.Props.C06_nonsentence_rejected",
+                "Y.Props.C06_conflict_table_can_loop", "Y.Term.certTermFast_eq"]
+C06_MODULES = ["Yv.Props.C06", "Yv.Props.C06b", "Yv.Props.C01gen", "Yv.Props.C06c"]
 
 
 # ------------------------------------------------------------------------------------------- X-based checks
